@@ -36,6 +36,10 @@ fn main() {
                         stage = Some(args[i + 1].clone());
                         i += 2;
                     }
+                    "--isolate" => {
+                        sev::engine::set_isolate(true);
+                        i += 1;
+                    }
                     _ => usage(),
                 }
             }
@@ -97,6 +101,15 @@ fn main() {
                     std::process::exit(2)
                 }
             }
+        }
+        "exec-case" => {
+            sev::engine::install_panic_hook();
+            let mut inp = String::new();
+            std::io::Read::read_to_string(&mut std::io::stdin(), &mut inp).unwrap();
+            let v: serde_json::Value = serde_json::from_str(&inp).expect("json");
+            let p = sev::props::property(v["property"].as_str().unwrap(), Tier::Quick).expect("property");
+            let st = p.stages.iter().find(|s| s.name() == v["stage"].as_str().unwrap()).expect("stage");
+            println!("{}", st.exec_json(&v["case"]));
         }
         "transcript" => {
             sev::props::c20::child_main();
